@@ -58,6 +58,8 @@ def fine_coords(rnd, coarse, s, n, count):
             out.add(v)
     while len(out) < count:
         out.add(rnd.randint(0, n))
+    if len(out) > count:
+        out = set(rnd.sample(sorted(out), count))
     return out
 
 
@@ -93,7 +95,8 @@ def pair_cfg(rnd, ga, gb, whole, multi, quick, target):
     if multi:
         k["MaxLoopsA"] = 3
         k["MaxLoopsB"] = 2 if quick else 3
-        k["KindsA"], k["KindsB"] = {0}, {0}
+        # the first loop of A is sometimes an L-shape (on a polar face its longitude span exceeds 180 degrees)
+        k["KindsA"], k["KindsB"] = ({0, rnd.choice(kinds)} if rnd.random() < 0.5 else {0}), {0}
         coarse_pitch = {rnd.choice([0, 1])}
         fine_pitch = {rnd.choice([1, 2, 4])}
         k["PitchA"] = coarse_pitch if ga <= gb else fine_pitch
@@ -154,7 +157,7 @@ def small_cfg(rnd, quick):
     f1, f2, f3 = rnd.sample(range(6), 3)
     k["FacePairs"] = {f1 * 6 + f1, f2 * 6 + f3} if quick else {f * 6 + f for f in range(6)} | {f2 * 6 + f3, f3 * 6 + f1}
     est = nrects(k["XsA"], k["YsA"]) * 3.0 * nrects(k["XsB"], k["YsB"]) * 1.5 * len(k["FacePairs"])
-    k["ThinMod"] = max(1, int(round(est / (400 if quick else 4000))))
+    k["ThinMod"] = max(1, int(round(est / (250 if quick else 4000))))
     k["ThinRem"] = rnd.randrange(k["ThinMod"])
     return k
 
@@ -175,7 +178,7 @@ def run(ctx):
         "trace direction: nested/disjoint certificates of random regular loops come from their construction with a margin of >= 10% of the radii",
     ]
     ctx.specdir()
-    target = 500 if quick else 2500
+    target = 500 if quick else 1800
 
     def pairs(k, label, workers=12, timeout=1500):
         r = ctx.tlc("Gen_Relations", vlib.cfg(init="InitPair", next_="NextPair", constants=k,
@@ -224,7 +227,7 @@ def run(ctx):
     small = {n * 1000 + c for n in (1, 2, 3, 4) for c in range(math.factorial(n))}
     k = base_constants()
     if quick:
-        k.update({"Codes": small | {5000 + c for c in rnd.sample(range(120), 5)}, "Reals": {q("gap"), q("diag")},
+        k.update({"Codes": small | {5000 + c for c in rnd.sample(range(120), 3)}, "Reals": {q("gap"), q("diag")},
                   "Scales": {0}, "Subs": {False, True}, "FBase": rnd.randint(0, 5)})
         forests(k)
     else:
